@@ -38,15 +38,16 @@ var scanNames = []string{"fileext", "likelyjson", "shortid", "linkhdr", "script"
 
 func init() {
 	register(&Driver{
-		Name:     "scan",
-		Header:   "From ZenoV Require Import Lib.Harness Safe.GoOps Safe.Scanners Safe.SafeHarness.\nOpen Scope Z_scope.\n",
-		CaseType: "scase",
-		Footer:   "\nDefinition DIFF := Eval vm_compute in sdiffs cases.\nPrint DIFF.\nDefinition MON := Eval vm_compute in smons cases.\nPrint MON.\n",
-		Rule:     "one case = (function, byte string): hasFileExtension, isLikelyJSON, GetShortID, ExtractURLsFromHeader, extractFromScriptContent (with the JSON decoder's answers on every candidate payload as oracle table), srcsetURLs (the srcset splitting helper of HTMLAssets), ina.extractJWPlayerVersion (dead code), and the library models TrimSpace / Split / range-over-string; inputs are structured (URLs, headers, scripts), boundary-dense (lengths around every guard) and malformed (random bytes, invalid UTF-8, Unicode white space); distinct by input text; non-trivial when the function's answer is not the trivial one (true, a non-empty list, an output different from the input, or a panic)",
-		Setup:    func() { config.InitConfig() },
-		Gen:      genScan,
-		Exec:     execScan,
-		Shrink:   shrinkScan,
+		Name:           "scan",
+		CaseTimeoutSec: 120,
+		Header:         "From ZenoV Require Import Lib.Harness Safe.GoOps Safe.Scanners Safe.SafeHarness.\nOpen Scope Z_scope.\n",
+		CaseType:       "scase",
+		Footer:         "\nDefinition DIFF := Eval vm_compute in sdiffs cases.\nPrint DIFF.\nDefinition MON := Eval vm_compute in smons cases.\nPrint MON.\n",
+		Rule:           "one case = (function, byte string): hasFileExtension, isLikelyJSON, GetShortID, ExtractURLsFromHeader, extractFromScriptContent (with the JSON decoder's answers on every candidate payload as oracle table), srcsetURLs (the srcset splitting helper of HTMLAssets), ina.extractJWPlayerVersion (dead code), and the library models TrimSpace / Split / range-over-string; inputs are structured (URLs, headers, scripts), boundary-dense (lengths around every guard) and malformed (random bytes, invalid UTF-8, Unicode white space); distinct by input text; non-trivial when the function's answer is not the trivial one (true, a non-empty list, an output different from the input, or a panic)",
+		Setup:          func() { config.InitConfig() },
+		Gen:            genScan,
+		Exec:           execScan,
+		Shrink:         shrinkScan,
 	})
 }
 
